@@ -12,3 +12,6 @@ export CARGO_TARGET_DIR="$(pwd)/work/target"
   RUSTFLAGS="-Zsanitizer=thread" CARGO_TARGET_DIR="$(pwd)/../work/target-tsan" \
   cargo +nightly build -Zbuild-std --target x86_64-unknown-linux-gnu --offline --profile tsan -p c24probe) || echo "setup: TSan build failed (C24 will report inconclusive)"
 echo "setup complete"
+# warm the dependency build used to compile generated stubs (C26)
+./check C26 --tier quick > /dev/null 2>&1 || echo "setup: C26 warm-up reported a problem (the check itself will tell)"
+echo "setup: all builds warmed"
